@@ -279,6 +279,15 @@ func (e *integEngine) checkC08() {
 			}
 		}
 		wantDir := t.Dir
+		if strings.Contains(wantDir, "{{.VS_V0}}") {
+			v := t.Vars["VS_V0"]
+			if st != nil {
+				if o, ok := st.Vars["VS_V0"]; ok {
+					v = o
+				}
+			}
+			wantDir = strings.Replace(wantDir, "{{.VS_V0}}", v, 1)
+		}
 		if st != nil && st.Dir != "" {
 			wantDir = st.Dir
 		}
@@ -349,6 +358,10 @@ func GenOverrideWorld(ch *Choices, thorough bool) *IntegWorld {
 	}
 	if ch.Bool(1, 3, "task-dir") {
 		t.Dir = "/vs/taskdir"
+		if ch.Bool(1, 2, "templated-dir") {
+			// the directory is a template over a variable the stages override
+			t.Dir = "/vs/dir-{{.VS_V0}}"
+		}
 	}
 	if ch.Bool(1, 3, "hooks") {
 		// hooks see the stage's values too; some use the shell idiom NAME=${NAME:-default}, which
